@@ -260,8 +260,11 @@ func filterMethodCall(blockContext antlr.Tree) {
 }
 
 func buildRestApiWithParameters(ctx *parser.MethodDeclarationContext) {
-	parameterList := ctx.FormalParameters().GetChild(1).(*parser.FormalParameterListContext)
-	formalParameter := parameterList.AllFormalParameter()
+	// a receiver parameter (`void m(Foo this)`) is not a parameter; the list, when present, follows it
+	var formalParameter []parser.IFormalParameterContext
+	if parameterList, ok := ctx.FormalParameters().(*parser.FormalParametersContext).FormalParameterList().(*parser.FormalParameterListContext); ok {
+		formalParameter = parameterList.AllFormalParameter()
+	}
 	for _, param := range formalParameter {
 		paramContext := param.(*parser.FormalParameterContext)
 
